@@ -103,6 +103,23 @@ def deep_programs():
     return out
 
 
+def literal_programs():
+    """every spelling of a literal the lexer accepts that a fixed-width conversion could choke on (values around 2^31, 2^32,
+    2^63, 2^64, very long digit strings, huge and empty exponents, long fractions), in every position where the checker or
+    the generator looks at a literal: plain, operand, range / slice bound and step, index, argument, default, match pattern,
+    interpolation, power"""
+    lits = ["2147483647", "2147483648", "4294967295", "4294967296", "9223372036854775807", "9223372036854775808",
+            "18446744073709551616", "9" * 40, "0" * 30 + "1", "1E400", "1E99999999999", "3E", "2.5E310", "0." + "3" * 60,
+            "1" + "0" * 25 + ".5", "00000000000000000000"]
+    ctxs = ["def x := {L}\n", "def x := {L} + 1\n", "def x := -{L}\n", "for i in 0 .. 10 .. {L} do print(i)\n", "for i in 0 ..= {L} do print(i)\n",
+            "for i in {L} .. {L} .. {L} do print(i)\n", "def xs := [1, 2]\ndef y := xs[0 :: 1 :: {L}]\n", "def xs := [1, 2]\ndef y := xs[{L} ::= {L}]\n",
+            "def xs := [1, 2]\ndef y := xs[{L}]\n", "def f(a: Int) -> Int => a\nprint(f({L}))\n", "def f(a: Int := {L}) -> Int => a\n",
+            "def y := match 3\n    {L} => 1\n    _ => 2\n", "print(\"v {{{L}}}\")\n", "def x := 2 ^ {L}\n", "def x := {L} mod 7\n", "def x := sqrt {L}\n",
+            "def x: Int := {L}\n", "def x: Float := {L}\n", "def t := ({L}, {L})\n", "def s := {{{L}}}\n", "def r := 0 .. {L}\n", "while {L} > 1 do print(1)\n",
+            "class K(def v: Int := {L})\n"]
+    return [c.replace("{L}", l) for l in lits for c in ctxs]
+
+
 def run(chk):
     thorough = chk.tier == "thorough"
     ok = chk.build_harness()
@@ -116,6 +133,7 @@ def run(chk):
     rng = chk.rng
     cases = [("adversarial", t) for t in ADVERSARIAL] + [("deep", t) for t in deep_programs()]
     cases += [("token-placement", t) for t in token_placement_programs()]
+    cases += [("literal", t) for t in literal_programs()]
     cases += [("class-graph", t) for t in class_graph_programs(rng, 1500 if thorough else 300)]
     cases += [("special-name", t) for t in special_name_programs()]
     cases += [("corpus", f["input"]) for f in chk.findings if f.get("input")]
